@@ -141,10 +141,13 @@ CLAIMS["C16"] = dict(
          "~100 key expressions (single / x-only / extended keys x origin x path x multipath step x wildcard) "
          "at_derivation_index appends exactly the child the wildcard names (refusing i >= 2^31, hardened results and "
          "multipath keys), into_single_keys yields one key per alternative in order, full_derivation_path(s) = origin "
-         "path + path, and derive_public_key derives along exactly that path.",
+         "path + path, and derive_public_key derives along exactly that path; whole descriptors of every output type "
+         "over such keys (parsed, split and printed by evaluation): into_single_descriptors yields exactly the texts with "
+         "each <a;b;..> step replaced by its j-th alternative, at_derivation_index(i) the text with /* replaced by /i "
+         "(refused for multipath, hardened and out-of-range cases), and keys with different numbers of alternatives "
+         "are refused.",
     note="Trusted: spec/outputs.py; rust-bitcoin script/address constructors and BIP-32 child derivation modelled as term "
-         "constructors; rustc THIR. BIP32 arithmetic, descriptor-level multipath expansion and taproot output keys are "
-         "not decided.",
+         "constructors; rustc THIR. BIP32 arithmetic and taproot output keys (C15) are not decided.",
     tech=STATIC + "symbolic extraction of output-script terms compared with a standards table; sibling agreement; dispatch uniformity",
     engine="symx")
 CLAIMS["C17"] = dict(
